@@ -477,7 +477,49 @@ def r9(ctx):
     ctx.floor(R, 3)
 
 
+def r11(ctx):
+    R = "C13-R11"
+    ctx.rule(R, "a socket is closed in the kernel of the host that owns it: the Drop impls of the shim sockets (TcpStream / FdGuard, TcpListener, "
+                "UdpSocket, OwnedWriteHalf) reach Kernel::close / shutdown through a kernel accessor; that accessor must pick the kernel from "
+                "something the socket carries (a host id passed in), not from the ambient `current host` of the thread - tasks spawned by a host's "
+                "future (the accept-loop-plus-handler shape) are polled with whichever host ran last as the current one, so an ambient lookup "
+                "closes the fd in another host's table: the entry here is never reclaimed and a live socket there is torn down")
+    drops = [b for b in ctx.w.bodies.values() if b.crate == "turmoil_net" and re.match(r"^<turmoil_net::shim::.* as std::ops::Drop>::drop$", b.id)]
+    n = 0
+    amb = {}
+    for db in sorted(drops, key=lambda b: b.id):
+        for fb in ctx.w.family(db.id):
+            for bb, t in fb.calls():
+                ab = ctx.w.bodies.get(t["f"])
+                if not ab or ab.crate != "turmoil_net":
+                    continue
+                # an accessor: its family reaches Fabric::kernel_mut
+                km = [(kb, kbb, kt) for kb in ctx.w.family(ab.id) for kbb, kt in kb.calls(re.compile(r"Fabric::kernel_mut$|Fabric::kernel$"))]
+                if not km:
+                    continue
+                n += 1
+                kb, kbb, kt = km[0]
+                at = Slicer(ctx.w).atoms(kb, kt["args"][1])
+                # the host must come from an argument of the accessor that is not the closure to run
+                host_args = [a for a in at if a.startswith("arg:") and a.endswith("@" + ab.id)]
+                clos = {f"arg:{k + 1}:" for k, ti in enumerate(ctx.w.fns[ab.id]["inputs"]) if ab.tys[ti].get("k") in ("closure", "param")} if ab.id in ctx.w.fns else set()
+                owned = [a for a in host_args if not any(a.startswith(c) for c in clos)]
+                e = amb.setdefault(ab.id, {"ok": True, "site": t["s"], "drops": [], "fields": set()})
+                if not owned:
+                    e["ok"] = False
+                    e["drops"].append(db.id.split(" as ")[0].rsplit("::", 1)[1])
+                    e["fields"] |= {a[6:].rsplit("::", 2)[-2] + "::" + a.rsplit("::", 1)[1] for a in at if a.startswith("field:")}
+    for aid, e in sorted(amb.items()):
+        ctx.inst(R, f"drop-closes-own-kernel:via:{aid}", e["ok"], e["site"], "the kernel is chosen by a host the socket carries" if e["ok"] else
+                 f"the shim sockets {sorted(set(e['drops']))} close their fd through `{aid}`, which takes the kernel of the thread's *current* host ({sorted(e['fields'])}): dropped from a "
+                 "task spawned by the host's future, a socket is closed in whichever host was polled last - its own entry stays (CLOSE_WAIT for ever, no FIN), "
+                 "and a socket with the same fd number on the other host is torn down")
+    ctx.inst(R, "drop-closes-own-kernel:found", n >= 3, "", f"{n} close paths of shim sockets analysed" if n >= 3 else f"only {n} close paths found in the shim Drop impls: re-derive")
+    ctx.floor(R, 2)
+
+
 def run(ctx):
+    r11(ctx)
     from . import C06
     C06.r7(ctx)   # a close actually sends its FIN: fin_seq is the byte after send_buf, whatever is in flight (else FIN_WAIT1 for ever, entries leak)
     r10(ctx)
